@@ -706,8 +706,18 @@ fn judge_c12(script: &SockScript, l: &SockLog) -> Vec<SFinding> {
     {
         // connections from handshakes: SYN (X->Y, id c) answered by STATE (Y->X, id c)
         let mut conns: Vec<(SocketAddr, SocketAddr, u16, u64)> = vec![]; // (connector, acceptor, c, t)
+        let mut syn_no: BTreeMap<(SocketAddr, SocketAddr), usize> = BTreeMap::new();
         for (i, w) in l.wire.iter().enumerate() {
             if w.ptype == 4 && !w.injected && !w.rejected {
+                // by design the fifth concurrent connect to one address fails at once although its SYN has gone
+                // out, and the next connect takes the same id: the k-th SYN of a socket towards a peer belongs
+                // to its k-th connect call there; an attempt that failed is not a connection
+                let k = syn_no.entry((l.wire_from[i], l.wire_to[i])).or_insert(0);
+                let call = l.connects.iter().filter(|c| c.target == Some(l.wire_to[i]) && sock_addr(c.sock) == l.wire_from[i]).nth(*k);
+                *k += 1;
+                if matches!(call.map(|c| &c.done), Some(Done::Err(_))) {
+                    continue;
+                }
                 conns.push((l.wire_from[i], l.wire_to[i], w.conn_id, w.t_us));
             }
         }
